@@ -2,6 +2,9 @@
 BASELINE = ("cd /repo && cargo nextest run --workspace --no-fail-fast --tool-config-file pb:/w/lib/nextest.toml "
             "--profile pb --test-threads 8 --offline || cargo test --workspace --no-fail-fast --offline")
 
+# fix: commits in /repo (no hook commits: nothing verification-specific lives in /repo)
+SOURCE_COMMITS = ["acf241c", "f232737"]
+
 CHECKS = {
     "C11": dict(
         category="proof",
@@ -15,6 +18,71 @@ CHECKS = {
         design_ref="DESIGN.md section 4, C11",
     ),
 }
+
+COMPUTE_NOTE = ("Assumed: Verus/Z3 sound; float axioms A1/A2 on the one f64 expression (shape-keyed; a Verus failure of a float-dependent clause is a "
+                "violation only with a failing input found on the real function, else exit 2); hand-declared timespec/TimeSpec structs, libc aliases as i64, "
+                "zero_init_timespec and derived PartialEq stand-ins; extraction rewrites listed in the evidence. nix TimeSpec functions are NOT assumed: their "
+                "verbatim bodies are verified in the same file.")
+CHECKS.update({
+    "C05": dict(
+        category="proof", engine="verus-extracted",
+        text="compute_bound_at (verbatim body) is verified by Verus against: symmetric, normalised, ordered, half-width == bound + fterm(elapsed, drift) "
+             "(exact), within 1 + ef/2^50 ns of bound + floor(drift*elapsed/10^9) on both sides, zero-age exact, never below the stored bound, and a lemma that "
+             "the half-width is monotone in the monotonic reading; for all records/readings within +/-68 y, |bound| < 2^60, every drift < 10^9. The nix TimeSpec "
+             "operations it calls are verified from their verbatim source in the same file. The f64 drift term enters through assumed axioms (proof modulo A1/A2).",
+        note=COMPUTE_NOTE,
+        technique="Verus (Z3) deductive verification of the verbatim function body + callee bodies; assumed IEEE axioms for one expression; native search only to produce replay inputs",
+        design_ref="DESIGN.md section 4, C05"),
+    "C06": dict(
+        category="proof", engine="verus-extracted",
+        text="Status decay of compute_bound_at proved for all three stored statuses and all orderings of mono vs as_of, as_of+5 s, void_after (symbolic thresholds, so the "
+             "+/-1 ns neighbours are covered): result equals the documented status_law function, plus each clause of the property statement as its own postcondition; "
+             "the grace constant is proved to be 5 s. Pure integer/enum reasoning, no float axiom involved.",
+        note=COMPUTE_NOTE,
+        technique="Verus (Z3) postconditions on the verbatim body of compute_bound_at and of the nix comparison/addition it uses",
+        design_ref="DESIGN.md section 4, C06"),
+    "C14": dict(
+        category="proof", engine="verus-extracted",
+        text="compute_bound_at proved to return SegmentMalformed for drift >= 10^9, CausalityBreach iff mono <= as_of - 1000 ns, Ok otherwise, zero age inside the blur, and to "
+             "satisfy every callee precondition (nix range asserts, i64 overflow) and Verus's own overflow checks in the +/-68 y / 2^60 range = no panic/abort/overflow. "
+             "Error propagation to the Rust and C error types is proved by Kani (see C17 for the FFI types).",
+        note=COMPUTE_NOTE,
+        technique="Verus (Z3) on the verbatim body: error postconditions + panic/overflow freedom of the body and of the nix callees",
+        design_ref="DESIGN.md section 4, C14"),
+    "C08": dict(
+        category="proof", engine="kani-woven",
+        text="Step contracts of ShmUpdater::process_clock_update / process_missing_clock_update / write_clock_error_bound / new and the 3x3 FSM table, proved by Kani on the real code "
+             "(real Box<dyn FSMState>) from a symbolic pre-state reachable after a first synchronised report: exactly one publication per outcome; bound/as-of advance only on a synchronised "
+             "report and are frozen otherwise; void_after = as_of.tv_sec + 1000, 0 ns; drift and reserved copied; status = class of the latest outcome. A symbolic pre-state makes the step "
+             "contract an induction step, so every finite history is covered.",
+        note="Kani/CBMC sound; extract_bound_from_tracking replaced by 'returns any (bound,status)'; harness sink instead of the mmap writer; process_messages' 8-arm dispatch is covered separately (C08 dispatch obligations) or listed as unverified glue in the evidence.",
+        technique="Kani full-domain step-contract harnesses on the real updater and FSM (induction step over a symbolic pre-state)",
+        design_ref="DESIGN.md section 4, C08"),
+    "C09": dict(
+        category="proof", engine="kani-woven",
+        text="From ShmUpdater::new, zero or one arbitrary non-synchronised outcome followed by another arbitrary non-synchronised outcome publishes exactly the Unknown record with the placeholder "
+             "bound (base + step), and two consecutive non-synchronised outcomes are observably absorbed into the second (closure), so by induction no history of non-synchronised outcomes "
+             "publishes a status other than Unknown before the first synchronised report. Found and fixed F-C09 (fix: commit in /repo).",
+        note="Kani/CBMC sound; extract_bound_from_tracking replaced by its contract; observational equality in the absorption obligation covers the named fields, the FSM value, the published record and one further publication.",
+        technique="Kani full-domain harnesses on the real updater: base/step + absorption obligations (inductive argument over histories)",
+        design_ref="DESIGN.md section 4, C09"),
+    "C10": dict(
+        category="proof", engine="kani-woven",
+        text="From<u16> for ChronyClockStatus proved for all 65 536 codes; the status result of extract_bound_from_tracking proved for all leap codes, every non-negative update interval with wire "
+             "exponent in [-10,30] (one loop-free harness per exponent, 41 instances), every reference-time age below 2^40 s on both sides of 8 intervals (exact integer oracle), and a "
+             "reference time in the future.",
+        note="Kani/CBMC sound; SystemTime::elapsed and f64::powi stubbed by their contracts (listed); interval window stated.",
+        technique="Kani full-domain harnesses (per wire exponent) on the real function with an exact integer oracle",
+        design_ref="DESIGN.md section 4, C10"),
+    "C19": dict(
+        category="proof", engine="kani-woven",
+        text="The ppm->ppb statement of main(), cut verbatim from main.rs on every run and wrapped as a function, is proved for every Option<u32>: None -> 1000; Some(r) -> exactly 1000*r when "
+             "representable, otherwise the statement leaves main with Err; no arithmetic overflow on any path. ShmUpdater::new/step contracts prove the value is copied verbatim into every record. "
+             "Found and fixed F-C19 (u32 wrap in the release build).",
+        note="Kani/CBMC sound; format! stubbed on the refusal path; plumbing main -> thread_manager::run -> shm_writer::run -> ShmUpdater::new is unverified glue (a u32 passed by value).",
+        technique="Kani full-domain harness on a mechanically extracted statement + updater step contracts",
+        design_ref="DESIGN.md section 4, C19"),
+})
 
 NOT_APPLICABLE = {
     "C02": "quantifies over interleavings of individual memory accesses and C11/ARM reorderings; no contract within reach of Kani (no threads, sequential atomics) or Verus (would need a rewrite onto its permission types = a model) expresses it",
@@ -55,12 +123,12 @@ def manifest():
                       "cfg(kani)-guarded contracts/harness modules into the copy (tools/registry.py UNITS); Verus obligations run on "
                       "function text extracted verbatim from the working tree",
             "baseline_off_cmd": BASELINE,
-            "source_commits": [],
+            "source_commits": SOURCE_COMMITS,
             "add_only": True,
         },
         "engines": [
-            {"name": "kani-woven", "path": "tools/check.py", "serves_properties": sorted(CHECKS), "kind_free_text": "Kani 0.68 function-contract / full-domain harness proofs on the real crates, woven in a scratch copy"},
-            {"name": "verus-extracted", "path": "tools/verus_group.py", "serves_properties": [], "kind_free_text": "Verus on function bodies extracted verbatim from /repo each run"},
+            {"name": "kani-woven", "path": "tools/check.py", "serves_properties": sorted(k for k, v in CHECKS.items() if v.get("engine", "kani-woven") == "kani-woven"), "kind_free_text": "Kani 0.68 function-contract / full-domain harness proofs on the real crates, woven in a scratch copy"},
+            {"name": "verus-extracted", "path": "tools/verus_group.py", "serves_properties": sorted(k for k, v in CHECKS.items() if v.get("engine") == "verus-extracted"), "kind_free_text": "Verus on function bodies extracted verbatim from /repo (and from the pinned nix source) each run"},
         ],
         "checks": checks,
         "not_applicable": na,
